@@ -25,3 +25,10 @@ Definition sam_status : list (string * N) :=
    ("RESERVATION_CONFLICT", 24); ("TASK_SET_FULL", 40); ("ACA_ACTIVE", 48); ("TASK_ABORTED", 64)].
 (* library pseudo-status, not a SAM code: exempt from the comparison *)
 Definition pseudo_status : list string := ["SGIO_ERROR"].
+
+(* the error each non-GOOD status must surface as (named after the status) *)
+From PS Require Import Base.Bytes Base.Result.
+Inductive status_error := ECheckCondition | EOther (e : exn).
+Definition sam_status_error : list (N * status_error) :=
+  [(2, ECheckCondition); (4, EOther ConditionsMet); (8, EOther BusyStatus); (24, EOther ReservationConflict);
+   (40, EOther TaskSetFull); (48, EOther ACAActive); (64, EOther TaskAborted)]%N.
